@@ -6,7 +6,7 @@ From Coq Require Import List ZArith Bool Lia Permutation Sorted ZifyBool.
 From RP2V Require Import Base.Prelude Base.Assoc Base.Sorting Base.Dec Base.Time Model.Types Model.Generated Model.Txn
   Model.Matcher Model.MatchSpec Model.MatchWf Model.FracSpec Model.Pipeline Model.Computed Model.ComputedSpec
   Proofs.SortingProofs Proofs.FilterProofs Proofs.MatcherProps Proofs.C03Proofs Proofs.PipelineWf
-  Proofs.BalanceProofs Proofs.ComputedProofs Proofs.C07Proofs Proofs.L4Examples.
+  Proofs.BalanceProofs Proofs.ComputedProofs Proofs.C07Proofs Proofs.L4Examples Proofs.TransferFee.
 Import ListNotations.
 Open Scope Z_scope.
 
@@ -147,6 +147,8 @@ Proof.
 Qed.
 
 (** * reconciliation *)
+(** the core is independent of the transfer-fee rule of the source: it needs every non-zero transfer fee to be a taxable
+    event ([no_dust_fee]) *)
 Theorem c07_reconciliation_core : forall allow to_day exs hos sched t evs fs bl,
   taxable_events t = Ok evs ->
   wf (t_ins t) sched (map event_of evs) ->
@@ -170,16 +172,17 @@ Proof.
   rewrite E. lia.
 Qed.
 
+(** with the rule of the source (fee > 0 on the grid: [no_dust_fee_of_nonneg]) no hypothesis about dust is left *)
 Theorem c07_reconciliation : forall allow to_day exs hos sched t fs bl,
   fractions_of gen_always_repush sched t = Ok fs ->
   (forall evs, taxable_events t = Ok evs -> wf (t_ins t) sched (map event_of evs)) ->
-  outs_consistent t -> intras_consistent t -> no_dust_fee t -> no_cut to_day t ->
+  outs_consistent t -> intras_consistent t -> fees_nonneg t -> no_cut to_day t ->
   balances allow to_day exs hos t = Ok bl ->
   sumZ (map b_final bl) = unsold (t_ins t) fs.
 Proof.
-  intros allow to_day exs hos sched t fs bl HF HW. unfold fractions_of in HF.
+  intros allow to_day exs hos sched t fs bl HF HW Hout Hintra Hnn. unfold fractions_of in HF.
   destruct (taxable_events t) as [evs|e] eqn:HE; [|discriminate HF].
-  apply (c07_reconciliation_core allow to_day exs hos sched t evs fs bl HE (HW evs eq_refl) HF).
+  apply (c07_reconciliation_core allow to_day exs hos sched t evs fs bl HE (HW evs eq_refl) HF Hout Hintra (no_dust_fee_of_nonneg t Hnn)).
 Qed.
 
 (** for histories that went through the constructors the transfer fees are consistent by construction *)
@@ -199,14 +202,15 @@ Theorem c07_reconciliation_hist : forall allow to_day exs hos sched h t fs bl,
   in_rows_increasing h -> amounts_positive h -> NoDup (map fst sched) ->
   (forall evs, taxable_events t = Ok evs -> hist_same_instant_same_year evs /\ hist_sched_covers sched evs) ->
   fractions_of gen_always_repush sched t = Ok fs ->
-  outs_consistent t -> no_dust_fee t -> no_cut to_day t ->
+  outs_consistent t -> no_cut to_day t ->
   balances allow to_day exs hos t = Ok bl ->
   sumZ (map b_final bl) = unsold (t_ins t) fs.
 Proof.
-  intros allow to_day exs hos sched h t fs bl Hb Hinc Hpos Hnd Hev HF Hout Hdust Hcut HB.
+  intros allow to_day exs hos sched h t fs bl Hb Hinc Hpos Hnd Hev HF Hout Hcut HB.
   apply (c07_reconciliation allow to_day exs hos sched t fs bl HF); auto.
   - intros evs HE. destruct (Hev evs HE) as [H1 H2]. exact (pipeline_wf h sched t evs Hb HE Hinc Hpos H1 H2 Hnd).
   - exact (build_intras_consistent h t Hb).
+  - exact (built_fee_nonneg h t Hb).
 Qed.
 
 (** * non-vacuity: history A of L4Examples.v (two exchanges, two holders, a fee-bearing transfer, income) meets every
@@ -230,8 +234,8 @@ Proof.
 Qed.
 Example tA_outs_consistent : outs_consistent tA.
 Proof. intros a Ha. cbn [tA t_outs In] in Ha. repeat (destruct Ha as [<-|Ha]; [reflexivity|]). destruct Ha. Qed.
-Example tA_no_dust : no_dust_fee tA.
-Proof. intros a Ha _. cbn [tA t_intras In] in Ha. repeat (destruct Ha as [<-|Ha]; [vm_compute; reflexivity|]). destruct Ha. Qed.
+Example tA_fees_nonneg : fees_nonneg tA.
+Proof. intros a Ha. cbn [tA t_intras In] in Ha. repeat (destruct Ha as [<-|Ha]; [vm_compute; discriminate|]). destruct Ha. Qed.
 Example tA_no_cut : no_cut 100000 tA.
 Proof.
   intros x Hx. vm_compute in Hx. repeat (destruct Hx as [<-|Hx]; [vm_compute; discriminate|]). destruct Hx.
@@ -254,7 +258,6 @@ Proof.
   - exact hA_events_ok.
   - exact fsA_matched.
   - exact tA_outs_consistent.
-  - exact tA_no_dust.
   - exact tA_no_cut.
   - exact tA_balances.
 Qed.
@@ -263,25 +266,36 @@ Example c07_reconciliation_value : unsold (t_ins tA) fsA = 28 * U / 10 /\ holder
 Proof. vm_compute. repeat split; reflexivity. Qed.
 
 (** * the hypotheses are needed *)
-(** finding F8: a transfer fee of 1e-11 coins at price 1e-8 has a fiat value below 5e-14, is not a taxable event,
-    and the lots keep what the balances have lost *)
-Definition hDust : hist :=
-  {| h_ins := [ r_in 1 18000 0 0 BUY 1000 (1 * U) ]; h_outs := [];
-     h_intras := [ r_intra 2 18010 0 0 1 0 1000 (1 * U) (1 * U - 1) ] |}.
+(** finding F8 (repaired): under the rule `fiat value of the fee > 0 at 13 decimals` a transfer fee of 1e-11 coins at
+    price 1e-8 (worth 1e-19 < 5e-14) was not a taxable event, and the lots kept what the balances had lost.  Stated on the
+    pipeline under that explicit rule ([fractions_of_by intra_is_taxable_fiat]); history [hDust] of Proofs/TransferFee.v *)
 Theorem c07_reconciliation_dust_refuted : exists h sched t fs bl,
-  build h = Ok t /\ fractions_of gen_always_repush sched t = Ok fs /\ balances false 100000 exsA hosA t = Ok bl /\
-  outs_consistent t /\ intras_consistent t /\ no_cut 100000 t /\
+  build h = Ok t /\ fractions_of_by intra_is_taxable_fiat gen_always_repush sched t = Ok fs /\
+  balances false 100000 exsA hosA t = Ok bl /\
+  outs_consistent t /\ intras_consistent t /\ fees_nonneg t /\ no_cut 100000 t /\
   sumZ (map b_final bl) = unsold (t_ins t) fs - 1.
 Proof.
   destruct (build hDust) as [t|] eqn:B; [|vm_compute in B; discriminate B].
-  destruct (fractions_of gen_always_repush schedA t) as [fs|] eqn:F; [|vm_compute in B; injection B as <-; vm_compute in F; discriminate F].
+  destruct (fractions_of_by intra_is_taxable_fiat gen_always_repush schedA t) as [fs|] eqn:F;
+    [|vm_compute in B; injection B as <-; vm_compute in F; discriminate F].
   destruct (balances false 100000 exsA hosA t) as [bl|] eqn:L; [|vm_compute in B; injection B as <-; vm_compute in L; discriminate L].
   exists hDust, schedA, t, fs, bl. split; [exact B|]. split; [exact F|]. split; [exact L|].
   vm_compute in B. injection B as <-. vm_compute in F. injection F as <-. vm_compute in L. injection L as <-.
-  split; [intros a []|]. split; [intros a [<-|[]]; reflexivity|].
+  split; [intros a []|]. split; [intros a [<-|[]]; reflexivity|]. split; [intros a [<-|[]]; vm_compute; discriminate|].
   split; [intros x Hx; vm_compute in Hx; repeat (destruct Hx as [<-|Hx]; [vm_compute; discriminate|]); destruct Hx|].
   vm_compute. reflexivity.
 Qed.
+
+(** the same history under the rule of the source reconciles: the fee is taken from the lot *)
+Definition fsDust : list fraction :=
+  Eval vm_compute in match fractions_of gen_always_repush schedA tDust with Ok fs => fs | Err _ => [] end.
+Definition blDust : list balance :=
+  Eval vm_compute in match balances false 100000 exsA hosA tDust with Ok bl => bl | Err _ => [] end.
+Example c07_dust_fee_reconciles_now :
+  build hDust = Ok tDust /\ fractions_of gen_always_repush schedA tDust = Ok fsDust /\ balances false 100000 exsA hosA tDust = Ok blDust /\
+  map (fun f => (f_ev f, f_lot f, f_amt f)) fsDust = [(2, Some 1, 1)] /\
+  sumZ (map b_final blDust) = unsold (t_ins tDust) fsDust /\ unsold (t_ins tDust) fsDust = 1 * U - 1.
+Proof. vm_compute. repeat split; reflexivity. Qed.
 
 (** a supplied crypto_out_with_fee that is not amount + fee is what the matcher consumes, while the balances use amount + fee *)
 Definition hIncons : hist :=
@@ -292,7 +306,7 @@ Definition hIncons : hist :=
      h_intras := [] |}.
 Theorem c07_reconciliation_needs_consistent_outs : exists h sched t fs bl,
   build h = Ok t /\ fractions_of gen_always_repush sched t = Ok fs /\ balances false 100000 exsA hosA t = Ok bl /\
-  no_dust_fee t /\ no_cut 100000 t /\ sumZ (map b_final bl) <> unsold (t_ins t) fs.
+  fees_nonneg t /\ no_cut 100000 t /\ sumZ (map b_final bl) <> unsold (t_ins t) fs.
 Proof.
   destruct (build hIncons) as [t|] eqn:B; [|vm_compute in B; discriminate B].
   destruct (fractions_of gen_always_repush schedA t) as [fs|] eqn:F; [|vm_compute in B; injection B as <-; vm_compute in F; discriminate F].
